@@ -38,7 +38,31 @@ def write_violation(pid, v, tier, seed):
     return path
 
 
+def _install_function_coverage(outdir):
+    """development aid (VERIF_FUNCCOV=<dir>): which forsys functions do the checks execute at all? Every process appends the
+    functions it is the first to see to <dir>/<pid>.txt; tools/funccov.py summarises against the functions defined in the package."""
+    import sys
+    os.makedirs(outdir, exist_ok=True)
+    seen = set()
+    root = os.path.join(os.environ.get("FORSYS_REPO", "/repo"), "forsys") + os.sep
+
+    def prof(frame, event, arg):
+        if event != "call":
+            return
+        co = frame.f_code
+        if co in seen:
+            return
+        seen.add(co)
+        fn = co.co_filename
+        if fn.startswith(root):
+            with open(os.path.join(outdir, "%d.txt" % os.getpid()), "a") as fh:
+                fh.write("%s:%d:%s\n" % (fn[len(root):], co.co_firstlineno, co.co_name))
+    sys.setprofile(prof)
+
+
 def main(argv):
+    if os.environ.get("VERIF_FUNCCOV"):
+        _install_function_coverage(os.environ["VERIF_FUNCCOV"])
     if len(argv) < 2:
         print("usage: check <ID> quick|thorough | <ID> --replay <file>")
         return 2
